@@ -1,15 +1,22 @@
-Require Import Base.Bytes Core.VehicleDefs Gen.VehicleTab Core.Vehicle Props.C13.
+Require Import Base.Bytes Core.VehicleDefs Gen.VehicleTab Core.Vehicle Core.VehicleProofs.
+Require Import Props.C13.
 Local Open Scope N_scope.
 Check c13_read_is_v9_rule : forall bs, vehicle_read bs = spec_read bs.
-Check c13_reencode_identical : forall bs v, allbytes bs -> vehicle_read bs = Ok v -> vehicle_write v = Ok bs.
+Check c13_reencode_identical : forall bs v,
+  allbytes bs -> vehicle_read bs = Ok v -> vehicle_write v = Ok bs.
 Check c13_error_iff_unrecognised_builtin_name : forall bs, length bs = 4%nat ->
-  (vehicle_read bs = Err <-> bs <> zeros4 /\ builtin_shape bs = true /\
+  (vehicle_read bs = Err <->
+   bs <> zeros4 /\ builtin_shape bs = true /\
    forall i nm, In (i, nm) vehicle_display_tab -> nm ++ [0] <> bs).
 Check c13_unknown_iff_zeros : forall bs, vehicle_read bs = Ok Unknown <-> bs = zeros4.
 Check c13_mod_iff_not_builtin_shape : forall bs id, length bs = 4%nat ->
   (vehicle_read bs = Ok (Mod id) <-> bs <> zeros4 /\ builtin_shape bs = false /\ id = le_dec bs).
 Check c13_builtin_iff_named : forall bs i, length bs = 4%nat ->
   (vehicle_read bs = Ok (Builtin i) <-> exists nm, In (i, nm) vehicle_display_tab /\ nm ++ [0] = bs).
+Check c13_classification_follows_the_bytes : forall bs v, length bs = 4%nat -> vehicle_read bs = Ok v ->
+  (is_mod v = true <-> bs <> zeros4 /\ builtin_shape bs = false) /\
+  is_builtin v = negb (is_mod v) /\
+  (is_mod v = true -> v = Mod (le_dec bs)).
 Check c13_printed_name_is_wire_name : forall i nm,
   vehicle_display i = Some nm -> vehicle_write (Builtin i) = Ok (nm ++ [0]).
 Check c13_roundtrip_on_reachable : forall bs v,
@@ -22,6 +29,7 @@ Print Assumptions c13_error_iff_unrecognised_builtin_name.
 Print Assumptions c13_unknown_iff_zeros.
 Print Assumptions c13_mod_iff_not_builtin_shape.
 Print Assumptions c13_builtin_iff_named.
+Print Assumptions c13_classification_follows_the_bytes.
 Print Assumptions c13_printed_name_is_wire_name.
 Print Assumptions c13_roundtrip_on_reachable.
 Print Assumptions c13_builtin_set_is_lfs.
